@@ -149,8 +149,11 @@ def exit_obligations(ctx: Ctx, I: Interp, field: str) -> None:
         cond = [lbl for a, lbl in l.atoms]
         cs = f" (path: {', '.join(map(str, cond))})" if cond else ""
         ctx.check(l.kind == "return", "C17.exit", "__exit__ does not raise by itself", where, f"{l.kind}{cs}", f"Tag.__exit__ raises {short(l.value)}{cs}")
-        ctx.check(not (l.kind == "return" and l.value is True), "C17.exit", "__exit__ does not swallow exceptions", where, f"returns {short(l.value)}{cs}",
-                  "Tag.__exit__ returns True: exceptions raised inside the block are suppressed")
+        falsy_ret = l.value is None or l.value is False or (isinstance(l.value, (int, str)) and not l.value)
+        ctx.check(not (l.kind == "return" and not falsy_ret), "C17.exit", "__exit__ does not swallow exceptions (it returns None/False)", where, f"returns {short(l.value)}{cs}",
+                  f"Tag.__exit__ returns {short(l.value)}: whenever that value is true (the enclosing hook may return anything - an outer tag's hook that returns "
+                  f"the tag, a recorder that returns its list) an exception raised inside the block is suppressed",
+                  witness="with outer: with inner: raise ValueError()   # must propagate")
         ev = _hook_events(l, s)
         kinds = [k for k, _ in ev]
         inst = [i for i, k in enumerate(kinds) if k == "install"]
